@@ -723,7 +723,7 @@ pub fn run(args: &Args) -> i32 {
     let small = args.has("--small"); // Miri-sized
     let n = args.count(3200, 160_000);
     let hist_len = if small { 30 } else { 60 };
-    let stress_every = if small { 40 } else { 100 };
+    let stress_every = if small { 5 } else { 100 };
     let range: Vec<u64> = match args.case {
         Some(c) => vec![c],
         None => (0..n).collect(),
@@ -733,7 +733,7 @@ pub fn run(args: &Args) -> i32 {
             break;
         }
         let mut rng = Rng::new(args.case_seed(c));
-        if c % stress_every == stress_every - 1 {
+        if c % stress_every == stress_every - 1 || args.has("--stress-only") {
             let (th, ops) = if small { (3, 40) } else { (rng.range(2, 16), if args.thorough { 6000 } else { 1500 }) };
             stress(&mut rng, &mut rep, c, th, ops);
         } else {
